@@ -350,7 +350,15 @@ def _check_history(hist, ref, failed_ops, V, stats, simos, k):
         if r['status'] == 'ok' and op['kind'] == 'retrieve':
             e = POOL[op['model']]
             me = r['out'][1]
-            prob = base.content_problem(me, e['key'], False, True)
+            # "visible means complete": if every store of this key that had started before
+            # this read returned carried results, a successful read must show them
+            stores = [x['op']['kind'] for x in recs if x['inv'] < r['ret'] and
+                      x['op'].get('model') is not None and POOL[x['op']['model']]['key'] == e['key'] and
+                      x['op']['kind'] in ('store', 'store_input', 'store_final', 'db_store_model')]
+            earlier = e['key'] in ref.keys_acked
+            must = e['has_results'] and stores and 'db_store_model' not in stores and \
+                (not earlier or ref.keys_acked[e['key']]['results'])
+            prob = base.content_problem(me, e['key'], bool(must), True)
             if prob is not None:
                 V.viol('partial-or-wrong-entry-visible',
                        f'concurrent retrieve of {e["name"]} by {r["vt"]} succeeded but {prob}')
